@@ -389,6 +389,10 @@ type model struct {
 	pipeline string
 	live     map[string]*reg
 	gen      map[string]int // handler generations handed out per name, live or not
+	// names whose Before("*")/After("*") placement is not asserted: the listed class `star-as-anchor`
+	// (a '*' callback that another registration names as anchor is sorted early). Everything else about
+	// such a history - membership, handlers, every named constraint, the other '*' callbacks - is judged.
+	waive map[string]bool
 }
 
 func newModel(pipeline string) *model {
@@ -410,7 +414,7 @@ func (m *model) signature() string {
 }
 
 func (m *model) clone() *model {
-	c := &model{pipeline: m.pipeline, live: map[string]*reg{}, gen: map[string]int{}}
+	c := &model{pipeline: m.pipeline, live: map[string]*reg{}, gen: map[string]int{}, waive: m.waive}
 	for n, r := range m.live {
 		x := *r
 		x.extra = append([][2]string(nil), r.extra...)
@@ -513,6 +517,9 @@ func (m *model) checkWith(f []fired, sides bool) error {
 			continue
 		}
 		if !starHard && (r.before == "*" || r.after == "*") {
+			continue
+		}
+		if m.waive[name] && (r.before == "*" || r.after == "*") {
 			continue
 		}
 		if r.before == "*" {
@@ -681,6 +688,9 @@ func names(f []fired) string {
 func checkCase(c Case) string {
 	res := apply(c)
 	m := newModel(c.Pipeline)
+	if harness.OpenClass("C17", "star-as-anchor") && !strict {
+		m.waive = anchoredStars(c)
+	}
 	var cands []*model // after a rejected call: the readings "it took effect" / "it did not"
 	for i, r := range res {
 		if r.err != nil {
@@ -998,19 +1008,47 @@ func normalised(c Case) Case {
 // starAsAnchor recognises the known class `star-as-anchor`: a callback that is
 // registered with Before("*")/After("*") at some point of the history is also
 // named as the Before/After anchor of another registration.
-func starAsAnchor(c Case) bool {
+func starAsAnchor(c Case) bool { return len(anchoredStars(c)) > 0 }
+
+// replaceBetweenStars recognises the known class `replace-between-stars`: a Replace that carries a
+// Before/After naming a '*' callback, of a callback that is itself anchored on a '*' callback.
+func replaceBetweenStars(c Case) bool {
+	m := newModel(c.Pipeline)
+	star := func(n string) bool {
+		r, ok := m.live[n]
+		return ok && (r.before == "*" || r.after == "*")
+	}
+	for _, o := range c.Ops {
+		if o.Kind == "replace" && o.Match != "f" && (star(o.Before) || star(o.After)) {
+			if r, ok := m.live[o.Name]; ok && (star(r.before) || star(r.after)) {
+				return true
+			}
+		}
+		m.step(o)
+	}
+	return false
+}
+
+// anchoredStars: the '*' callbacks of the history that another call names as its anchor.
+func anchoredStars(c Case) map[string]bool {
 	star := map[string]bool{}
 	for _, o := range c.Ops {
 		if o.Kind == "register" && (o.Before == "*" || o.After == "*") {
 			star[o.Name] = true
 		}
 	}
+	out := map[string]bool{}
 	for _, o := range c.Ops {
-		if (o.Kind == "register" || o.Kind == "replace") && (star[o.Before] || star[o.After]) {
-			return true
+		if o.Kind == "register" || o.Kind == "replace" {
+			if star[o.Before] {
+				out[o.Before] = true
+			}
+			if star[o.After] {
+				out[o.After] = true
+			}
 		}
 	}
-	return false
+	return out
 }
 
 // ---- running one case with journalling ------------------------------------------------------
@@ -1025,9 +1063,13 @@ func runCase(t interface{ Fatalf(string, ...interface{}) }, c Case, test string)
 		evid.Excluded("forward-reference")
 		return
 	}
-	if harness.OpenClass("C17", "star-as-anchor") && starAsAnchor(c) {
-		evid.Excluded("star-as-anchor")
+	if harness.OpenClass("C17", "replace-between-stars") && replaceBetweenStars(c) {
+		evid.Excluded("replace-between-stars")
 		return
+	}
+	if harness.OpenClass("C17", "star-as-anchor") && starAsAnchor(c) {
+		// not dropped: judged with the '*' placement of the anchored callback left out (see model.waive)
+		evid.Class("known:star-as-anchor ('*' placement of the anchored callback not asserted)")
 	}
 	evid.Journal(string(b))
 	res := apply(c)
@@ -1336,7 +1378,12 @@ func TestC17Guard(t *testing.T) {
 
 // ---- witnesses of listed findings (plain tests, no generator) -------------------------------
 
+// strict: nothing is waived (the witnesses of the listed classes are judged in full).
+var strict bool
+
 func witness(t *testing.T, cases ...Case) {
+	strict = true
+	defer func() { strict = false }()
 	for _, c := range cases {
 		if msg := checkCase(c); msg != "" {
 			t.Errorf("C17 violated by %s\n  %s", c, msg)
@@ -1383,6 +1430,13 @@ func TestC17WitnessStarAnchor(t *testing.T) {
 			Case{Pipeline: pl, Ops: []Op{{Kind: "register", Name: "c1", After: "*"}, {Kind: "register", Name: "c2", After: "c1"}, {Kind: "register", Name: "c3"}}},
 			Case{Pipeline: pl, Ops: []Op{{Kind: "register", Name: "c1", After: "c3"}, {Kind: "register", Name: "c2"}, {Kind: "register", Name: "c3", After: "*"}}},
 		)
+	}
+}
+
+func TestC17WitnessReplaceBetweenStars(t *testing.T) {
+	for _, pl := range pipelines {
+		witness(t, Case{Pipeline: pl, Ops: []Op{{Kind: "register", Name: "c1", After: "*"}, {Kind: "register", Name: "c2", After: "*"},
+			{Kind: "register", Name: "c3", After: "c2"}, {Kind: "replace", Name: "c3", After: "c1"}}})
 	}
 }
 
